@@ -247,15 +247,22 @@ Mon26Step(g, e) ==
 
 -----------------------------------------------------------------------------
 (* C27  Higher-priority subscriptions are served first                      *)
-M27Init == [prio |-> [i \in SubIds |-> 0]]
+M27Init == [prio |-> [i \in SubIds |-> 0], nq |-> [i \in SubIds |-> 0]]
+\* Served in this record: by a timer tick, the subscriptions of the responses it produced (e.out); by a publish request
+\* (whose responses stay in the server's response queue until the next timer tick), the subscriptions whose number of
+\* pending notifications went down. Left unserved: the subscriptions that still have notifications pending afterwards.
 Mon27Step(g, e) ==
-  LET g1 == IF e.ev = "CreateSub" THEN [g EXCEPT !.prio[e.sub] = e.prio] ELSE g IN
-  IF e.fail # "none" \/ e.ev # "Tick" THEN [g |-> g1, viol |-> {}]
+  LET g1 == IF e.ev = "CreateSub" THEN [g EXCEPT !.prio[e.sub] = e.prio] ELSE g
+      nqNow == [i \in SubIds |-> IF HasSub(e, i) THEN StSub(e, i).nq ELSE 0]
+      g2 == [g1 EXCEPT !.nq = nqNow]
+  IN
+  IF e.fail # "none" \/ e.ev \notin {"Tick", "Pub"} THEN [g |-> g2, viol |-> {}]
   ELSE
-  LET served == {e.out[j].sub : j \in {k \in 1..Len(e.out) : IsMsg(e.out[k])}}
-      unserved == {e.st.subs[j].id : j \in {k \in 1..Len(e.st.subs) : e.st.subs[k].nq > 0}}
+  LET served == IF e.ev = "Tick" THEN {e.out[j].sub : j \in {k \in 1..Len(e.out) : IsMsg(e.out[k])}}
+                ELSE {i \in SubIds : nqNow[i] < g.nq[i]}
+      unserved == {i \in SubIds : nqNow[i] > 0}
       bad == \E a \in served, b \in unserved : a \in SubIds /\ b \in SubIds /\ g1.prio[a] < g1.prio[b]
-  IN [g |-> g1, viol |-> IF bad THEN {"lower-priority-served-first"} ELSE {}]
+  IN [g |-> g2, viol |-> IF bad THEN {"lower-priority-served-first"} ELSE {}]
 
 -----------------------------------------------------------------------------
 (* C40  Republish and acknowledgement see the same retained notifications   *)
